@@ -25,6 +25,9 @@ FIELD_TYPES: Dict[Tuple[str, str], Ty] = {}
 ON_TOUCH: Dict[str, List[Callable[..., List[Any]]]] = {}
 # Virtual (overridden) properties abstracted by an uninterpreted function: (definer name, attr) -> Ty
 VIRTUAL_PROPS: Dict[Tuple[str, str], Ty] = {}
+# (class name, property) -> type: properties whose getter contract names the result `V:<class>.<prop>[self]`; inside
+# contract clauses the property reads that name directly
+NAMED_PROPS: Dict[Tuple[str, str], Ty] = {}
 # logger-like names whose calls are dropped (DESIGN §2.1)
 DROPPED_CALL_PREFIXES = ("logger", "logging", "logger_txn_ctx", "logger_detectors", "logger_parsing")
 
@@ -125,8 +128,19 @@ class ExecBase:
             return VClass(None, t, base), [z3.Or([z3.And(t == self.ct.lo[c], CLS_LO(t) == self.ct.lo[c],
                                                          CLS_HI(t) == self.ct.hi[c]) for c in subs])]
         if k == "dict":
-            return VDict(ty.key, ty.val, z3.Const(name, z3.ArraySort(sort_of(ty.key), sort_of(ty.val))),
-                         z3.Const(name + "#dom", z3.ArraySort(sort_of(ty.key), z3.BoolSort()))), []
+            t = z3.Int(name)
+            return VDict(ty.key, ty.val, t, getattr(ty, "default", False)), [t > 0, t < ALLOC0]
+        if k == "callable":
+            # an arbitrary *pure* function of its arguments: an uninterpreted function symbol
+            fn = z3.Function(name, *[sort_of(a) for a in ty.args], sort_of(ty.ret))
+
+            def sym(ex: Any, args: List[V], kwargs: Dict[str, V], st: State, fn=fn, ty=ty):
+                res = from_term(fn(*[to_term(a, t) for a, t in zip(args, ty.args)]), ty.ret, ex)
+                yield res, st
+            vf = VFunc("sym", name=name, sym=sym)
+            vf.fn = fn
+            vf.ty = ty
+            return vf, []
         raise Unsupported(f"cannot create a fresh value of type {ty!r}")
 
     def type_constraint(self, v: V) -> Any:
@@ -146,7 +160,7 @@ class ExecBase:
     def term_of(self, v: V) -> Any:
         if isinstance(v, (VInt, VBool, VStr, VRef, VEnum, VAbs, VSet)):
             return v.term
-        if isinstance(v, VList):
+        if isinstance(v, (VList, VDict)):
             return v.ref
         raise Unsupported(f"no single term for {v!r}")
 
@@ -330,6 +344,52 @@ class ExecBase:
             st.lens = {k: v for k, v in st.lens.items() if k != l.ref.get_id()}
         return st
 
+    # ---- dict objects -------------------------------------------------------------------------------------
+    def _dmap(self, st: State, kt: Ty, vt: Ty) -> Tuple[str, Any]:
+        ks, vs = sort_of(kt), sort_of(vt)
+        key = f"D.map:{ks}->{vs}"
+        return key, st.harr(key, z3.IntSort(), z3.ArraySort(ks, vs))
+
+    def _ddom(self, st: State, kt: Ty) -> Tuple[str, Any]:
+        ks = sort_of(kt)
+        key = f"D.dom:{ks}"
+        return key, st.harr(key, z3.IntSort(), z3.ArraySort(ks, z3.BoolSort()))
+
+    def dict_dom(self, d: VDict, st: State) -> Any:
+        return z3.Select(self._ddom(st, d.key)[1], d.ref)
+
+    def dict_map(self, d: VDict, st: State) -> Any:
+        return z3.Select(self._dmap(st, d.key, d.val)[1], d.ref)
+
+    def new_dict(self, kt: Ty, vt: Ty, st: State, items: Sequence[Tuple[V, V]] = (), default: bool = False) -> Tuple[VDict, State]:
+        ref, st = self.alloc(st)
+        d = VDict(kt, vt, ref, default)
+        kd, dom = self._ddom(st, kt)
+        inner_dom = z3.K(sort_of(kt), z3.BoolVal(False))
+        km, mp = self._dmap(st, kt, vt)
+        inner = z3.Select(mp, ref)
+        for k, v in items:
+            inner_dom = z3.Store(inner_dom, to_term(k, kt), z3.BoolVal(True))
+            inner = z3.Store(inner, to_term(k, kt), to_term(v, vt))
+        st = st.hset(kd, z3.Store(dom, ref, inner_dom))
+        st = st.hset(km, z3.Store(mp, ref, inner))
+        return d, st
+
+    def dict_read(self, d: VDict, k: V, st: State) -> Tuple[V, State]:
+        v = from_term(z3.Select(self.dict_map(d, st), to_term(k, d.key)), d.val, self)
+        if isinstance(v, (VRef, VEnum, VUnion)):
+            st = st.assume(self.type_constraint(v))
+        if isinstance(v, (VList, VDict)):
+            st = st.assume(self.term_of(v) < ALLOC0 + st.nalloc)
+        return v, st
+
+    def dict_write(self, d: VDict, k: V, v: V, st: State) -> State:
+        kt = to_term(k, d.key)
+        kd, dom = self._ddom(st, d.key)
+        st = st.hset(kd, z3.Store(dom, d.ref, z3.Store(z3.Select(dom, d.ref), kt, z3.BoolVal(True))))
+        km, mp = self._dmap(st, d.key, d.val)
+        return st.hset(km, z3.Store(mp, d.ref, z3.Store(z3.Select(mp, d.ref), kt, to_term(v, d.val))))
+
     def _concrete_int(self, term: Any, st: State) -> Optional[int]:
         term = z3.simplify(term)
         if z3.is_int_value(term):
@@ -366,7 +426,7 @@ class ExecBase:
             ln = z3.Select(self._len_arr(st), coll.ref)
             return VBool(z3.Exists([j], z3.And(j >= 0, j < ln, z3.Select(inner, j) == xt)))
         if isinstance(coll, VDict):
-            return VBool(z3.Select(coll.dom, to_term(x, coll.key)))
+            return VBool(z3.Select(self.dict_dom(coll, st), to_term(x, coll.key)))
         if isinstance(coll, VPy) and isinstance(coll.obj, dict):
             key = self.concrete(x)
             return VBool(key in coll.obj)
@@ -523,8 +583,8 @@ class ExecBase:
             st = st.assume(self.type_constraint(v))
         if k == "refu":
             st = st.assume(term > 0, term < ALLOC0, z3.Or([g for g, _ in v.alts]))
-        if k == "list":
-            st = st.assume(term < ALLOC0 + st.nalloc)   # a stored list exists already (never a not-yet-allocated address)
+        if k in ("list", "dict"):
+            st = st.assume(term < ALLOC0 + st.nalloc)   # a stored container exists already (never a not-yet-allocated address)
         return v, st
 
     def write_field(self, ref: VRef, definer: type, attr: str, val: V, st: State) -> State:
@@ -549,6 +609,7 @@ class ExecBase:
                 or (k == "str" and isinstance(v, VStr)) or (k == "bool" and isinstance(v, VBool))
                 or (k == "ref" and isinstance(v, VRef)) or (k == "enum" and isinstance(v, VEnum))
                 or (k == "list" and isinstance(v, VList)) or (k == "rec" and isinstance(v, VRec))
+                or (k == "dict" and isinstance(v, VDict))
                 or (k == "set" and isinstance(v, VSet)))
 
     def touch(self, ref: VRef, st: State) -> State:
@@ -567,6 +628,11 @@ class ExecBase:
         """Attribute access inside contract clauses: fields and trivial properties only (no forking)."""
         from .dsl import current
         ctx = current()
+        for k in ref.cls.__mro__:
+            if (k.__name__, name) in NAMED_PROPS:
+                v, st2 = self._read_typed(f"V:{k.__name__}.{name}", ref.term, NAMED_PROPS[(k.__name__, name)], ctx.st)
+                ctx.st.pc[:] = st2.pc
+                return v
         outs = list(self.getattr_v(ref, name, ctx.st))
         if len(outs) != 1:
             raise Unsupported(f"attribute {name} forks inside a contract clause")
